@@ -848,9 +848,20 @@ class PathEval:
             except (KeyError, TypeError):
                 pass
         if self.other is not None:
+            # the same condition assumed earlier on this path (e.g. a flag bound to a name and tested twice) keeps its truth, provided
+            # nothing it reads was written in between
+            st = self.subst(t)
+            key = ast.dump(st)
+            names = {x.id for x in ast.walk(st) if isinstance(x, ast.Name)}
+            for k0, v0, seq0 in getattr(self, '_assumed_keys', []):
+                if k0 == key and not any(sq > seq0 and nm in names for sq, nm in getattr(self, '_mut_log', [])):
+                    return v0
             v = self.other(t, self)
             if v is not None:
-                self.res.assumed.append((self.subst(t), v))
+                self.res.assumed.append((st, v))
+                if not hasattr(self, '_assumed_keys'):
+                    self._assumed_keys = []
+                self._assumed_keys.append((key, v, getattr(self, 'seq', 0)))
                 return v
         if getattr(self, '_undecided', None) is None:
             self._undecided = t        # the first atomic test of this statement that could not be decided
@@ -1519,6 +1530,27 @@ class PathEval:
             finally:
                 for u in self.res.updates[nup:]:
                     u.setdefault('seq', self.seq)
+                # what this statement may have written (for the reuse of assumptions): every name it stores to / calls a method on
+                if not hasattr(self, '_mut_log'):
+                    self._mut_log = []
+                for x in ast.walk(s):
+                    root = None
+                    if isinstance(x, ast.Name) and isinstance(x.ctx, (ast.Store, ast.Del)):
+                        root = x
+                    elif isinstance(x, (ast.Subscript, ast.Attribute)) and isinstance(x.ctx, (ast.Store, ast.Del)):
+                        root = x
+                        while isinstance(root, (ast.Subscript, ast.Attribute, ast.Call)):
+                            root = root.func if isinstance(root, ast.Call) else root.value
+                    elif isinstance(x, ast.Call) and isinstance(x.func, ast.Attribute):
+                        root = x.func.value
+                        while isinstance(root, (ast.Subscript, ast.Attribute, ast.Call)):
+                            root = root.func if isinstance(root, ast.Call) else root.value
+                    elif isinstance(x, ast.Call):
+                        for a_ in x.args:
+                            if isinstance(a_, ast.Name):
+                                self._mut_log.append((self.seq, a_.id))      # passed to a function: may be mutated there
+                    if isinstance(root, ast.Name) and root.id not in self.m.imports:
+                        self._mut_log.append((self.seq, root.id))
             if r == 'end':
                 return True
         return False
